@@ -563,6 +563,14 @@ fn chunked_update_with_rbits<T>(x: &[T], rbits: &[Block], mut update: impl FnMut
     }
 }
 
+/// Reads the MAC at position `pos` of a decommitted `dm` message, which consists of one byte for
+/// the bit followed by 16-byte big-endian MACs. Returns `None` if the message is too short.
+fn dm_mac(dm: &[u8], pos: usize) -> Option<u128> {
+    let start = 1 + pos * 16;
+    let bytes = dm.get(start..start + 16)?;
+    Some(u128::from_be_bytes(bytes.try_into().ok()?))
+}
+
 /// Protocol PI_aShare that performs F_aShare from the paper
 /// [Global-Scale Secure Multiparty Computation](https://dl.acm.org/doi/pdf/10.1145/3133956.3133979).
 ///
@@ -639,10 +647,13 @@ pub(crate) async fn fashare(
     let mut di_bi = vec![0; RHO];
     for r in 0..RHO {
         for k in (0..n).filter(|k| *k != i) {
-            if dm_k[k][r][0] > 1 {
+            let Some(&claimed_bit) = dm_k[k][r].first() else {
+                return Err(Error::InvalidLength);
+            };
+            if claimed_bit > 1 {
                 return Err(Error::InvalidBitValue);
             }
-            bi[r] ^= dm_k[k][r][0] != 0;
+            bi[r] ^= claimed_bit != 0;
         }
         di_bi[r] = if bi[r] { d1[r] } else { d0[r] };
     }
@@ -658,14 +669,9 @@ pub(crate) async fn fashare(
                     return Err(Error::EmptyVector);
                 }
                 let dm = &dmv[r];
-                let start = if kk > k {
-                    // here we compensate for not sending anything for own index
-                    1 + (kk - 1) * 16
-                } else {
-                    1 + kk * 16
-                };
-                let end = start + 16;
-                if let Ok(mac) = dm[start..end].try_into().map(u128::from_be_bytes) {
+                // here we compensate for not sending anything for own index
+                let pos = if kk > k { kk - 1 } else { kk };
+                if let Some(mac) = dm_mac(dm, pos) {
                     xor_xk_macs[kk][r] ^= mac;
                 } else {
                     return Err(Error::ConversionErr);
